@@ -9,5 +9,6 @@ pub mod scalars;
 pub mod events;
 #[cfg(any(feature = "garde", feature = "validator"))]
 pub mod pathmap;
+pub mod reader;
 #[cfg(feature = "robotics")]
 pub mod robotics;
